@@ -541,10 +541,27 @@ def bb_eos():
     return O.make(gen, check, 'c03.bbnoh.eos')
 
 
+# recorded witness of the spurious Newton root D -> u0 < 0 reached from a guess within 20 % of the physical state (same
+# root cause as C16.newton.positive_speed; known finding C02.bbnoh.fields / NohBlackBoxEos:shock_speed).  Replayed first
+# on every run, so the KNOWN-FINDING line does not depend on how many random cases fit in the oracle's time budget.
+BB_JUMP_WITNESSES = [
+    dict(eos='NobleAbel', consts={'gamma': 1.1025520439506917, 'b': 0.026582815097811296},
+         ic={'density': 1.9642613141937337, 'velocity': -1.4572514696622192, 'pressure': 0.0, 'symmetry': 2},
+         pert=[0.19015214248986406, -0.17282858750802813, -0.14074135033283489],
+         pts=[0.5366385713676298, 0.7589795038048416, 0.8071176069231423, 1.3745288704999916, 1.4451096890294497,
+              1.4551261386616325, 1.4645327612472132, 1.4786425521933844],
+         t=0.4826654437463532),
+]
+
+
 def bb_jump():
     """C02: the states returned immediately on either side of the coded shock position, with the coded speed,
     satisfy the three Rankine-Hugoniot conditions (guess within +-20 % of the physical solution)"""
+    first = [dict(w) for w in BB_JUMP_WITNESSES]
+
     def gen(rng):
+        if first:
+            return first.pop(0)
         return _bb_case(rng, ['Ideal', 'Ideal', 'NobleAbel', 'CS', 'Stiff'])
 
     def check(c):
